@@ -44,7 +44,6 @@ mk("C15-symcnt-not-per-file", [("rewriter/range.go", "\tr.symCnt++\n\treturn pre
 mk("C16-tmp-dir-left-behind", [("rewriter/compile.go", "\ttmpOutputDir := mustMkDir(filepath.Join(dir, \"_co_tmp\"))\n\tif !runningWithGoTest {", "\ttmpOutputDir := mustMkDir(filepath.Join(dir, \"_co_tmp\"))\n\tif false {")])
 mk("C16-header-tag-wrong", [("rewriter/compile.go", "\tcomment        = fmt.Sprintf(fileComment, opt.buildTag)", "\tcomment        = fmt.Sprintf(fileComment, defaultFileSuffix+\"gen\")")])
 mk("C16-test-suffix-mapping", [("rewriter/compile.go", "\t\tfilename = replace(filename, testFileSuffix, \"_test.go\")", "\t\tfilename = replace(filename, testFileSuffix, \"_gen_test.go\")")])
-mk("C12-range-func-unchecked", [("rewriter/range.go", "\t\t\tcase *types.Signature:\n\t\t\t\tpanic(\"implement me: range func\")", "\t\t\tcase *types.Signature:\n\t\t\t\t// native range-over-func")])
 mk("C13-free-comments-and-directives", [("rewriter/optimize.go", "\t\to.optimizeImports(f)", "\t\to.optimizeImports(f)\n\t\tf.File.Comments = nil")])
 mk("C05-yieldfrom-evaluates-arg-per-step", [("rewriter/rewrite.go", "\tinit := X.Define(iter, fr.X)\n\tcond := X.Call(next)", "\tinit := X.Define(iter, fr.X)\n\tcond := X.Call(next)\n\tif call, ok := fr.X.(*ast.CallExpr); ok && len(call.Args) == 0 {\n\t\tcond = X.Call(X.Select(fr.X, cstMoveNext))\n\t}")])
 
